@@ -9,6 +9,10 @@ Case kinds (all JSON):
   transform  {"L": g, "R": g, "K": g, "cfgs": [[reindex, eh], ...]}        NXToGML.transform on any triple
   its        {"its": graph, "cfgs": [[core, reindex, eh], ...]}            its_to_gml / gml_to_its
   smart      {"rsmi": r, "cfgs": [[core, reindex, eh], ...], "of": r0?}    smart_to_gml (RDKit half in the adapter)
+  rxn        {"rsmi": r}                                 rsmi_to_its (core x explicit_hydrogen), its_to_rsmi / graph_to_rsmi up to the RWMols
+  itsrsmi    {"its": graph}                              its_to_rsmi on a synthetic ITS (hydrogens in the centre, missing atom_map)
+  gmlsmart   {"rec": record}                             gml_to_smart up to the RWMols
+  imph       {"g": graph, "preserve": [maps]}            implicit_hydrogen with reindex False / True
 graph = {"nodes": [[id, attrs]], "edges": [[u, v, attrs]]} in networkx insertion order (harness/gen/graphs.py).
 entry = [0, id, label] | [1, source, target, label];  sec in 0 (left), 1 (context), 2 (right).
 """
@@ -20,7 +24,7 @@ from ..coqrun import cN, cZ, cbool, clist, cpair, copt
 from ..tok import S
 
 PID = "C10"
-COQ_HEADER = ("From Coq Require Import List NArith ZArith String.\nFrom SK Require Import lib.Tok lib.LGraph model.C10_Model model.C10_Text.\n"
+COQ_HEADER = ("From Coq Require Import List NArith ZArith String.\nFrom SK Require Import lib.Tok lib.LGraph model.C10_Model model.C10_Text model.C10_Rxn.\n"
               "Import ListNotations.\nLocal Open Scope string_scope.\nLocal Open Scope Z_scope.\n")
 SHARD = 60
 IMPL_TIMEOUT = 1500
@@ -60,6 +64,8 @@ ASSUMPTIONS = [
     "domain of C10_h_roundtrip = graphs without explicit H; of C10_h_total_implicit = h_dom (every explicit H has hcount 0 and at most one "
     "heavy neighbour); outside these domains the clauses fail and the proof files carry the witnesses (bridging H, H with hcount, H already explicit)",
     "hcount and aromaticity are not carried by GML (stated in C10_gml_roundtrip: gml_node); stereo and isotope labels are not carried by the graph layer",
+    "h_to_explicit(its=True) (C10_h_*_any_mode): the typesGH halves stay lowered after implicit-again and bond dictionaries are "
+    "normalised ((o, o) pairs, standard_order 0) — stated in the theorems (h_restore_gen, fin_edge), not a loss of the molecule",
     "explicit_hydrogen=True exports: theorem for graphs without implicit hydrogens (hc_free: every core export); with implicit "
     "hydrogens the export adds hydrogen atoms on purpose: correspondence and oracle only",
 ]
@@ -70,10 +76,12 @@ TESTED_NOT_PROVED = [
     "(graph-level statements are proved: C10_h_total_*, C10_h_explicit_skeleton, C10_h_implicit_skeleton, C10_h_roundtrip)",
     "GML text rendering and the line tokenisation of GMLToNX.transform (glue): correspondence only, through an independent tokenizer",
     "smart_to_gml's RDKit half (rsmi_to_graph): the adapter feeds its output to the model",
-    "explicit_hydrogen=True exports of graphs with implicit hydrogens; core=False (full) exports on ITS graphs outside its_ok; h_to_explicit "
-    "with its=True beyond the total count: correspondence + oracle only",
+    "explicit_hydrogen=True exports of graphs with implicit hydrogens; core=False (full) exports on ITS graphs outside its_ok: "
+    "correspondence + oracle only",
+    "graph_to_rsmi / its_to_rsmi / gml_to_smart: modelled up to the two RWMol handed to RDKit (observed on the real call by a spy on "
+    "graph_to_smi / GraphToMol.graph_to_mol); what RDKit writes from them is not modelled",
 ]
-LEVEL_TEXT = ("Machine-checked proof (Coq, 31 theorems, closed under the global context) over an executable model of the GML writer/reader at "
+LEVEL_TEXT = ("Machine-checked proof (Coq, 38 theorems, closed under the global context) over an executable model of the GML writer/reader at "
               "record level, of its_to_gml / gml_to_its / smart_to_gml / get_rc / its_decompose / ITSGraph at graph level, of h_to_explicit / "
               "h_to_implicit, and of the attribute copying of MolToGraph / GraphToMol: label round trip for every element symbol and every "
               "charge; ITS -> GML -> ITS restores atoms, both-side charges and (before, after) orders for every reaction-centre-shaped ITS, "
@@ -549,6 +557,20 @@ def impl(case):
         return run_hist(case["script"])
     if k == "text":
         return _text_obs(case["text"])
+    if k == "rxn":
+        from ..gen import c10_rxn
+        if rxn_graphs(case["rsmi"]) is None:
+            return ["NOGRAPH"]
+        return c10_rxn.rxn_obs(case["rsmi"], gr_ord_obs, _total_h)
+    if k == "itsrsmi":
+        from ..gen import c10_rxn
+        return c10_rxn.itsrsmi_obs(to_nx(case["its"]))
+    if k == "gmlsmart":
+        from ..gen import c10_rxn
+        return c10_rxn.gmlsmart_obs(rec_to_text(case["rec"]))
+    if k == "imph":
+        from ..gen import c10_rxn
+        return c10_rxn.imph_obs(to_nx(case["g"]), case["preserve"], gr_ord_obs)
     if k == "smart":
         from synkit.IO.chem_converter import smart_to_gml
         from synkit.Graph.ITS.its_construction import ITSConstruction
@@ -603,6 +625,18 @@ def coq_case(case):
             return coq_hist(case["script"])
         if k == "text":
             return "run_text2 %s" % enc_str(case["text"])
+        if k == "rxn":
+            x = rxn_graphs(case["rsmi"])
+            if x is None:
+                return None
+            eo = clist(["(%s, %s)" % (cN(u), cN(v)) for u, v in x[2]])
+            return "run_rxn %s %s %s" % (enc_gr(x[0]), enc_gr(x[1]), eo)
+        if k == "itsrsmi":
+            return "run_its_rsmi %s" % enc_gr(case["its"])
+        if k == "gmlsmart":
+            return "run_gml_smart %s" % enc_rec(case["rec"])
+        if k == "imph":
+            return "run_imph %s %s" % (enc_gr(case["g"]), clist([cZ(x) for x in case["preserve"]]))
         if k == "smart":
             x = rxn_graphs(case["rsmi"])
             if x is None:
@@ -1517,6 +1551,15 @@ def oracle(case):
         return _oracle_smart(case)
     if k == "hist":
         return _oracle_hist(case)
+    if k == "rxn":
+        from ..gen import c10_rxn
+        x = rxn_graphs(case["rsmi"])
+        if x is None or sorted(n for n, _ in x[0]["nodes"]) != sorted(n for n, _ in x[1]["nodes"]):
+            return []
+        return c10_rxn.rxn_clauses(case["rsmi"], _total_h, _rule_struct, _iso_struct, text_to_rec, _fail)
+    if k == "imph":
+        from ..gen import c10_rxn
+        return c10_rxn.imph_clauses(to_nx(case["g"]), case["preserve"], case.get("name", "graph"), _total_h, _fail)[:3]
     return []
 
 
@@ -1535,9 +1578,9 @@ def nontrivial(case, obs):
         return any(a.get("hcount") or a.get("element") == "H" for _, a in case["g"]["nodes"])
     if k == "mol":
         return isinstance(obs, list) and obs != ["NOGRAPH"]
-    if k in ("hist", "text"):
+    if k in ("hist", "text", "rxn", "itsrsmi", "imph"):
         return True
-    if k == "parse":
+    if k in ("parse", "gmlsmart"):
         return any(es for _, es in case["rec"])
     if k == "transform":
         return bool(case["L"]["edges"] or case["R"]["edges"])
@@ -2013,6 +2056,19 @@ def gen_cases(tier, rng):
                         K["edges"].append([i, rng.choice(ids), {"order": [1, 1], "standard_order": 0}])
             rng.shuffle(K["nodes"])
         cases.append(dict(kind="transform", L=side(0), R=side(1), K=K, cfgs=[[True, False], [False, False], [rng.random() < 0.5, True]]))
+    # ---- reaction-level wrappers (model/C10_Rxn.v): rsmi_to_its options, its_to_rsmi / graph_to_rsmi / gml_to_smart up to the
+    #      molecules handed to RDKit, implicit_hydrogen(reindex)
+    from ..gen import c10_rxn
+    for j, r in enumerate(c10_rxn.EXPLICIT_H_RXNS):
+        cases.append(dict(kind="rxn", rsmi=r, name="rxn/explicit-h/%d" % j))
+    for k in range(60 if quick else 500):
+        cases.append(dict(kind="itsrsmi", its=c10_rxn.rand_its_h(rng, _rand_its)))
+    for k in range(60 if quick else 500):
+        cases.append(dict(kind="gmlsmart", rec=c10_rxn.rand_record_valid(rng)))
+    for k in range(80 if quick else 600):
+        g = _rand_mol_graph(rng, rng.randint(1, 8))
+        maps = [a.get("atom_map", 0) for _, a in g["nodes"]]
+        cases.append(dict(kind="imph", g=g, preserve=rng.sample(maps, min(len(maps), rng.randint(0, 3))) + ([0] if rng.random() < 0.2 else [])))
     # ---- ITS -> GML -> ITS: exhaustive two-atom scope, random synthetic, corpus
     ALL4 = [[True, True, False], [True, False, False], [False, True, False], [False, False, False]]
     for j, g in enumerate(_two_atom_its()):
@@ -2047,6 +2103,8 @@ def gen_cases(tier, rng):
             continue
         cases.append(dict(kind="smart", rsmi=r, cfgs=[[True, False, False], [True, True, False], [False, False, False]],
                           name="smart/%s/%d" % (src, j)))
+        if not quick or len([c for c in cases if c["kind"] == "rxn"]) < 27:
+            cases.append(dict(kind="rxn", rsmi=r, name="rxn/%s/%d" % (src, j)))
         r2 = _renumber(r, rng)
         if rxn_graphs(r2) is not None:
             cases.append(dict(kind="smart", rsmi=r2, of=r, cfgs=[[True, True, False], [True, False, rng.random() < 0.3]],
